@@ -499,11 +499,14 @@ class PteraTransformer(NodeTransformer):
                 orig=target,
             )
 
-        elif isinstance(target, ast.Tuple):
+        elif isinstance(target, (ast.Tuple, ast.List)):
             stmts = []
             for entry in target.elts:
                 stmts.extend(self.generate_interactions(entry))
             return stmts
+
+        elif isinstance(target, ast.Starred):
+            return self.generate_interactions(target.value)
 
         else:  # pragma: no cover
             raise NotImplementedError(target)
@@ -701,15 +704,43 @@ class PteraTransformer(NodeTransformer):
         if len(targets) > 1:
             return _decompose(targets, lambda value, i: value)
 
-        elif isinstance(targets[0], ast.Tuple):
-            return _decompose(
-                targets[0].elts,
-                lambda value, i: ast.Subscript(
-                    value=value,
-                    slice=ast.Index(value=ast.Constant(i)),
-                    ctx=ast.Load(),
-                ),
-            )
+        elif isinstance(targets[0], (ast.Tuple, ast.List)):
+            # Let Python do the unpacking, into temporaries that mirror the
+            # shape of the target (nesting, starred entries), then assign
+            # each leaf separately. Indexing the value instead would fail or
+            # misbehave for iterators, dicts, starred targets and values of
+            # the wrong length.
+            leaves = []
+
+            def _temps(tgt):
+                if isinstance(tgt, (ast.Tuple, ast.List)):
+                    return type(tgt)(
+                        elts=[_temps(elt) for elt in tgt.elts], ctx=ast.Store()
+                    )
+                elif isinstance(tgt, ast.Starred):
+                    return ast.Starred(value=_temps(tgt.value), ctx=ast.Store())
+                else:
+                    sym = _gensym()
+                    leaves.append((tgt, sym))
+                    return ast.Name(id=sym, ctx=ast.Store())
+
+            accum = [
+                ast.copy_location(
+                    ast.Assign(targets=[_temps(targets[0])], value=node.value),
+                    node,
+                )
+            ]
+            for tgt, sym in leaves:
+                accum += self.visit_Assign(
+                    ast.copy_location(
+                        ast.Assign(
+                            targets=[tgt],
+                            value=ast.Name(id=sym, ctx=ast.Load()),
+                        ),
+                        node,
+                    )
+                )
+            return accum
         else:
             return self.make_interaction(
                 targets[0], None, node.value, orig=node
